@@ -52,7 +52,22 @@ Proof.
   - destruct (visits_of (jumpid (se_of fr w) sg) (ss_visits sg)) as [vt vf].
     set (ct := oracle (ss_path sg) c true). set (cf := oracle (ss_path sg) c false).
     set (d := jumpi_decide ct cf vt vf loop).
-    destruct (d_follow_true d && negb (is_jumpdest (f_code fr) t)) eqn:Eearly; [apply covered_self; exact Hsat|].
+    destruct (d_follow_true d && negb (is_jumpdest (f_code fr) t)) eqn:Eearly.
+    { apply andb_true_iff in Eearly. destruct Eearly as [Eft _].
+      destruct (Z.eq_dec (eval rho c) 0) as [Hc|Hc].
+      - assert (Hcf : cf <> R_UNSAT).
+        { intro Hu. apply (Hor _ _ _ Hu Hsat). unfold holds. cbn. apply Z.eqb_eq. exact Hc. }
+        destruct (cover_false ct cf vt vf loop Hcf) as [Hf|Hl]; fold d in Hf || fold d in Hl.
+        + pose proof (both_followed_symbolic ct cf vt vf loop Eft Hf) as Hsym. fold d in Hsym.
+          rewrite Hf, Hsym. cbn [andb].
+          match goal with |- covered (?x :: fst ?r, _) => assert (Hr : covered r) end.
+          { apply Hrec. cbn [ss_path]. constructor; [unfold holds; cbn; apply Z.eqb_eq; exact Hc | exact Hsat]. }
+          destruct Hr as [Hlog|[l [Hin Hs]]].
+          * left. cbn [snd]. rewrite Hlog. apply orb_true_r.
+          * right. exists l. split; [right; exact Hin | exact Hs].
+        + left. cbn [snd]. rewrite Hl. reflexivity.
+      - right. eexists; split; [left; reflexivity|]. cbn [l2_path].
+        constructor; [unfold holds; cbn; apply Z.eqb_neq; exact Hc | exact Hsat]. }
     destruct (Z.eq_dec (eval rho c) 0) as [Hc|Hc].
     + assert (Hcf : cf <> R_UNSAT).
       { intro Hu. apply (Hor _ _ _ Hu Hsat). unfold holds. cbn. apply Z.eqb_eq. exact Hc. }
@@ -74,11 +89,10 @@ Lemma resume_one_complete : forall fr s wf rest ro rsz on_ok sl,
   sat rho (l2_path sl) -> covered (resume_one rec fr s wf rest ro rsz on_ok sl).
 Proof.
   intros fr s wf rest ro rsz on_ok sl Hs. unfold resume_one.
-  destruct (l2_kind sl) as [ret w2 c2|ret c2|kd c2| | |] eqn:Ek.
+  destruct (l2_kind sl) as [ret w2 c2|ret c2|kd c2| |] eqn:Ek.
   - destruct (on_ok ret w2) as [[[st ret'] w3]|]; [apply Hrec; exact Hs | apply covered_self; exact Hs].
   - apply Hrec. exact Hs.
   - apply Hrec. exact Hs.
-  - right. exists sl. split; [left; reflexivity | exact Hs].
   - right. exists sl. split; [left; reflexivity | exact Hs].
   - right. exists sl. split; [left; reflexivity | exact Hs].
 Qed.
